@@ -174,6 +174,17 @@ CHECKS["C26"] = (
     "DESIGN.md §6 C26",
 )
 
+CHECKS["C27"] = (
+    "Lean 4 theorems over the path-map view of configurations: combining layers gives each setting the value of the last layer that "
+    "sets it (inheritance otherwise), inline directives override everything for that file and leave other settings alone; the two "
+    "section/value clash behaviours of nested_combine are modelled. nested_combine is corresponded on generated nested dicts; generated "
+    "hierarchies (defaults, home, cwd, nested dirs, ini+toml in one directory, extra config, overrides, inline) are compared with the "
+    "precedence order; histories of several files linted in one run check that no setting leaks between files.",
+    "Lean 4 proof (lookup over right-biased layering) + differential correspondence + history correspondence on the real Linter",
+    "Lean kernel; standard axioms; isolation is an object-sharing property of the real code and is sampled by histories, not proved",
+    "DESIGN.md §6 C27",
+)
+
 NOT_YET = {}
 
 
